@@ -16,17 +16,26 @@
 (*  "strings" string tables whose strings straddle the 64-byte read chunk    *)
 (*  "data"    raw / NOBITS / compressed (Chdr32/64, zlib) data paths,        *)
 (*            segment data and interpreter strings                           *)
+(*  "sessA/D/S/F" client sessions on ONE long-lived file (see the section):  *)
+(*            generators started / advanced / drained / abandoned and atomic  *)
+(*            queries interleaved; expected answer per call = the view       *)
 (* TLC checks: InSegStrict (macro transcription) <=> Geometric (independent  *)
 (* interval formulation) on the whole grid; the chunked string reader equals *)
 (* the declarative C string at every offset; Inflate(Deflate(p)) = p for     *)
 (* the stored-block streams the spec writes; AddressOffsets only yields      *)
-(* offsets whose file extent lies inside the segment.                        *)
+(* offsets whose file extent lies inside the segment.  Sessions              *)
+(* (cfg/Geometry_sess_*.cfg): SessGenPrefix - what the generators' cursors   *)
+(* have yielded, under every interleaving, is the prefix of the declarative  *)
+(* answer given by the table entries passed, all of it once exhausted;       *)
+(* SessHistoryFree - the logged answer of an atomic query is a function of   *)
+(* the letter alone.  Not asserted anywhere: data() of SHT_NULL headers      *)
+(* (gABI: no associated section, the other members are undefined).           *)
 (***************************************************************************)
 EXTENDS Elf, Json, CSV, IOUtils, SequencesExt
 
 CONSTANTS Modes
-VARIABLES mode, obj, done
-vars == <<mode, obj, done>>
+VARIABLES mode, obj, done, sess
+vars == <<mode, obj, done, sess>>
 
 ClsLe == {<<32, TRUE>>, <<32, FALSE>>, <<64, TRUE>>, <<64, FALSE>>}
 Base(cl) == [Im0 EXCEPT !.cls = cl[1], !.le = cl[2]]
@@ -188,11 +197,159 @@ InterpStr == <<47, 108, 105, 98, 47, 108, 100, 46, 115, 111, 0>>                
 InterpUtf8 == <<47, 108, 105, 98, 47, 108, 100, 45, 195, 169, 46, 115, 111, 0>>     \* "/lib/ld-e'.so" (UTF-8: e-acute = C3 A9)
 InterpData(n) == (IF n \in {64, 300} THEN InterpUtf8 ELSE InterpStr) \o (CASE n % 4 = 0 -> <<>> [] n % 4 = 1 -> <<0>> [] n % 4 = 2 -> <<0, 0, 0>> [] OTHER -> <<120, 0, 0>>)
 
+(* ----------------------------- client sessions -------------------------- *)
+Bit(b) == IF b THEN 1 ELSE 0
+\* One long-lived ELFFile, a sequence of client calls on it; the expected answer of every call is the declarative view of the
+\* image, whatever preceded it.  The calls: address_offsets / iter_segments GENERATORS that the client starts, advances one
+\* answer at a time, drains, abandons (after the first answer, or never advanced) or simply keeps open while it asks other
+\* things - and the atomic queries (get_segment, Segment.data, section_in_segment, Section.data of raw / NOBITS / compressed /
+\* wrongly sized compressed sections, get_string, the interpreter path), on objects fetched anew for every call or fetched
+\* once per session and held.  The generators are modelled at the granularity of the code's loop: a cursor over the program
+\* header table (Adv moves it to the next yielding entry); SessGenPrefix ties what the cursors have yielded to the
+\* declarative AddressOffsets, SessHistoryFree says the answer to a letter does not depend on its position in the log.
+SessPatA == [i \in 1..24 |-> 16 + i]
+SessPatB == [i \in 1..16 |-> 96 + i]
+\* a small string table: strings that end before / behind the 64-byte read chunk from wherever the lookup starts
+SessStrLens == <<0, 3, 70, 1, 61, 130>>
+SessStrTab == <<0>> \o Flat([k \in 1..Len(SessStrLens) |-> StrBody(k, SessStrLens[k]) \o <<0>>])
+ZSec(name, p, size, cl) == LET z == Ser(ChdrF(cl[1]), ChdrRec(1, size, 1), cl[1], cl[2]) \o Stored(p, 65535) IN
+                           Sec(Dot(name), N(1), N(2048), Z, z, N(Len(z)), Z, Z, N(1), Z)
+\* user sections 1..8: .a .b (loaded data) .i (interpreter path) .z .y (compressed, different payloads) .w (compressed, ch_size
+\* one more than the stream inflates to) .n (NOBITS behind .b) .st (string table)
+SessSecs(cl) == << Sec(Dot(<<97>>), N(1), N(2), N(4096), SessPatA, N(24), Z, Z, N(1), Z),
+                   Sec(Dot(<<98>>), N(1), N(3), N(4120), SessPatB, N(16), Z, Z, N(1), Z),
+                   Sec(Dot(<<105>>), N(1), Z, Z, InterpStr, N(Len(InterpStr)), Z, Z, N(1), Z),
+                   ZSec(<<122>>, Payload(20), 20, cl), ZSec(<<121>>, Payload2(33), 33, cl), ZSec(<<119>>, Payload(5), 6, cl),
+                   Sec(Dot(<<110>>), N(8), N(3), N(4136), <<>>, N(8), Z, Z, N(1), Z),
+                   Sec(Dot(<<115, 116>>), N(3), Z, Z, SessStrTab, N(Len(SessStrTab)), Z, Z, N(1), Z) >>
+\* the declarative answer of Section.data() (<<-1>>: ELFCompressionError)
+SessSecData == << SessPatA, SessPatB, InterpStr, Payload(20), Payload2(33), <<-1>>, Rep(0, 8), SessStrTab >>
+\* program header tables: [type, rel (file offset relative to the first section's), vaddr, filesz, memsz]; three and four
+\* PT_LOADs, overlapping address ranges that map to different file offsets, non-loadable entries between them
+SegL(t, rel, va, fs, ms) == [type |-> t, rel |-> rel, vaddr |-> va, filesz |-> fs, memsz |-> ms]
+SessLayouts == <<
+  << SegL(1, 0, 4096, 24, 24), SegL(4, 0, 4096, 40, 40), SegL(1, 24, 4120, 16, 24), SegL(1, 8, 4128, 32, 32),
+     SegL(3, 40, 0, 11, 11), SegL(1, 40, 8192, 0, 16) >>,
+  << SegL(4, 0, 4096, 40, 40), SegL(1, 8, 4128, 32, 32), SegL(7, 24, 4120, 16, 20), SegL(1, 24, 4120, 16, 24),
+     SegL(1, 0, 4096, 24, 24), SegL(1, 2, 4090, 49, 80), SegL(3, 40, 0, 11, 11) >> >>
+SessWorldKeys == {<<cl[1], cl[2], li>> : cl \in ClsLe, li \in 1..Len(SessLayouts)}
+SessWorldOf(w) ==
+  LET cl == <<w[1], w[2]>>   L == SessLayouts[w[3]]
+      im0 == [Base(cl) EXCEPT !.secs = SessSecs(cl), !.segs = [j \in 1..Len(L) |-> Seg(N(L[j].type), N(4), Z, Z, Z, Z, Z, N(1))]]
+      d == DataOff(im0)
+      im == [im0 EXCEPT !.segs = [j \in 1..Len(L) |-> Seg(N(L[j].type), N(4), N(d + L[j].rel), N(L[j].vaddr), N(L[j].vaddr),
+                                                          N(L[j].filesz), N(L[j].memsz), N(1))]]
+      area == Flat([k \in 1..Len(im.secs) |-> im.secs[k].data])
+  IN [im |-> im,
+      lay |-> [j \in 1..Len(L) |-> [load |-> L[j].type = 1, type |-> L[j].type, off |-> d + L[j].rel, vaddr |-> L[j].vaddr,
+                                    filesz |-> L[j].filesz, memsz |-> L[j].memsz]],
+      segdata |-> [j \in 1..Len(L) |-> SubSeq(area, L[j].rel + 1, L[j].rel + L[j].filesz)],
+      secgeo |-> [k \in 1..Len(im.secs) |-> [tls |-> FALSE, alloc |-> im.secs[k].flags.n \in {2, 3}, nobits |-> im.secs[k].type.n = 8,
+                                             off |-> SecOff(im, k), addr |-> im.secs[k].addr.n, size |-> im.secs[k].size.n]]]
+SessTab == TLCEval([w \in SessWorldKeys |-> TLCEval(SessWorldOf(w))])
+NSegW(Wd) == Len(Wd.lay)
+
+\* --- letters: [op, a, b]
+Letter(op, a, b) == [op |-> op, a |-> a, b |-> b]
+SessQ == {<<4100, 4>>, <<4130, 4>>, <<4150, 2>>, <<4122, 2>>, <<4094, 4>>}
+SessStrOffs == {2, 6, 50, 79, 141, 200}
+SessStrAns == TLCEval([o \in SessStrOffs |-> CStrAt(SessStrTab, o).s])                \* the NUL-terminated string at each offset
+GenKinds == {"addr", "segs"}
+GenOps == {"adv", "drain", "drop"}
+\* the declarative view
+SegHdr(Wd, j) == <<Wd.lay[j].type, Wd.lay[j].off, Wd.lay[j].vaddr, Wd.lay[j].filesz, Wd.lay[j].memsz>>
+SegGeo(Wd, j) == [type |-> N(Wd.lay[j].type), off |-> Wd.lay[j].off, vaddr |-> Wd.lay[j].vaddr, filesz |-> Wd.lay[j].filesz, memsz |-> Wd.lay[j].memsz]
+Answer(Wd, l) ==
+  CASE l.op = "nseg" -> <<NSegW(Wd)>>
+    [] l.op = "seg" -> SegHdr(Wd, l.a)
+    [] l.op = "segdata" -> Wd.segdata[l.a]
+    [] l.op = "inseg" -> IF InDomain(Wd.secgeo[l.b], SegGeo(Wd, l.a)) THEN <<Bit(InSegStrict(Wd.secgeo[l.b], SegGeo(Wd, l.a)))>> ELSE <<2>>
+    [] l.op = "secdata" -> SessSecData[l.a]
+    [] l.op = "str" -> SessStrAns[l.a]
+    [] l.op = "interp" -> CStrAt(Wd.segdata[l.a], 0).s
+\* what a generator yields, all of it, declaratively
+GenDecl(Wd, kind, a, b) ==
+  IF kind = "addr" THEN AddressOffsets(Wd.lay, a, b)
+  ELSE SetToSortSeq({j \in 1..NSegW(Wd) : a = 0 \/ Wd.lay[j].type = a}, LAMBDA x, y : x < y)
+\* the cursor machine: what the entry at table position j contributes to generator g
+GenAt(Wd, g, j) ==
+  LET e == Wd.lay[j] IN
+  IF g.kind = "addr" THEN (IF e.type = 1 /\ g.a >= e.vaddr /\ g.a + g.b - e.vaddr <= e.filesz THEN <<e.off + (g.a - e.vaddr)>> ELSE <<>>)
+  ELSE (IF g.a # 0 /\ e.type # g.a THEN <<>> ELSE <<j>>)
+RECURSIVE NextYield(_, _, _)
+NextYield(Wd, g, j) == IF j > NSegW(Wd) \/ GenAt(Wd, g, j) # <<>> THEN j ELSE NextYield(Wd, g, j + 1)
+RECURSIVE RestFrom(_, _, _)
+RestFrom(Wd, g, j) == IF j > NSegW(Wd) THEN <<>> ELSE GenAt(Wd, g, j) \o RestFrom(Wd, g, j + 1)
+Logged(l, ans) == [op |-> l.op, a |-> l.a, b |-> l.b, ans |-> ans]
+SessStep(Wd, s, l) ==
+  CASE l.op \in GenKinds -> [log |-> Append(s.log, Logged(l, <<>>)),
+                             gens |-> Append(s.gens, [kind |-> l.op, a |-> l.a, b |-> l.b, cur |-> 0, open |-> TRUE])]
+    [] l.op = "adv" -> LET g == s.gens[l.a]   j == NextYield(Wd, g, g.cur + 1) IN
+                       [log |-> Append(s.log, Logged(l, IF j > NSegW(Wd) THEN <<>> ELSE GenAt(Wd, g, j))),       \* <<>>: StopIteration
+                        gens |-> [s.gens EXCEPT ![l.a].cur = j]]
+    [] l.op = "drain" -> LET g == s.gens[l.a] IN
+                         [log |-> Append(s.log, Logged(l, RestFrom(Wd, g, g.cur + 1))), gens |-> [s.gens EXCEPT ![l.a].cur = NSegW(Wd) + 1]]
+    [] l.op = "drop" -> [log |-> Append(s.log, Logged(l, <<>>)), gens |-> [s.gens EXCEPT ![l.a].open = FALSE]]
+    [] OTHER -> [s EXCEPT !.log = Append(@, Logged(l, Answer(Wd, l)))]
+NoSess == [log |-> <<>>, gens |-> <<>>]
+SessModes == {"sessW", "sessA", "sessD", "sessS", "sessR"}       \* "sessW": no calls, the images of all worlds
+
+\* --- disciplines (the alphabet of a session; Depth calls per session).  SessDeep: the thorough tier (overridden in the cfg)
+SessDeep == FALSE
+SessDeepOn == TRUE
+SessDepth(m) == CASE m = "sessW" -> 0
+                  [] m = "sessA" -> IF SessDeep THEN 5 ELSE 4
+                  [] m = "sessD" -> IF SessDeep THEN 4 ELSE 3
+                  [] m = "sessS" -> IF SessDeep THEN 4 ELSE 3
+                  [] m = "sessR" -> IF SessDeep THEN 24 ELSE 14
+SessWorlds(m) == IF m = "sessW" \/ (SessDeep /\ m # "sessA") THEN SessWorldKeys
+                 ELSE IF m = "sessA" THEN {<<64, TRUE, 1>>, <<32, FALSE, 2>>}
+                 ELSE IF m = "sessD" THEN {<<64, TRUE, 1>>, <<32, FALSE, 1>>}
+                 ELSE {<<cl[1], cl[2], 1>> : cl \in ClsLe}
+SessHeld(m) == IF m \in {"sessW", "sessA"} THEN {FALSE} ELSE BOOLEAN
+Starts(qs, types) == {Letter("addr", q[1], q[2]) : q \in qs} \cup {Letter("segs", t, 0) : t \in types}
+\* (an exhausted generator is only dropped in the exhaustive disciplines; "sessR" also asks it again)
+\* "sessR": long sessions over the whole alphabet, one per schedule number obj.seed.  The next call is picked among the enabled
+\* ones by a fixed pseudo-random schedule (a linear congruential sequence started from the schedule number: first the kind of
+\* call - start a generator / operate an open one / an atomic query, 3 : 4 : 3 - then the letter, adv : drain : drop = 3 : 1 : 1), so that the sessions are
+\* long and diverse, reproducible, and TLC explores one behaviour per schedule.
+RECURSIVE Lcg(_, _)
+Lcg(seed, i) == IF i = 0 THEN (seed * 7919 + 13) % 65537 ELSE (Lcg(seed, i - 1) * 75 + 74) % 65537
+OpCode == [addr |-> 1, segs |-> 2, adv |-> 3, drain |-> 4, drop |-> 5, nseg |-> 6, seg |-> 7, segdata |-> 8, inseg |-> 9, secdata |-> 10, str |-> 11, interp |-> 12]
+LetterCode(l) == OpCode[l.op] * 1000000 + l.a * 100 + l.b
+PickFrom(S, r) == LET q == SetToSortSeq(S, LAMBDA x, y : LetterCode(x) < LetterCode(y)) IN q[(r % Len(q)) + 1]
+SessWorldSeq == SetToSortSeq(SessWorldKeys, LAMBDA x, y : x[1] * 10 + (IF x[2] THEN 4 ELSE 0) + x[3] < y[1] * 10 + (IF y[2] THEN 4 ELSE 0) + y[3])
+NSched == IF SessDeep THEN 3000 ELSE 500
+OnGens(Wd, s, live, ops) == {l \in {Letter(o, g, 0) : o \in ops, g \in live} : l.op = "drop" \/ s.gens[l.a].cur <= NSegW(Wd)}
+SessLetters(m, Wd, s, ob) ==
+  LET live == {g \in 1..Len(s.gens) : s.gens[g].open}
+      n == NSegW(Wd)
+      interp == {Letter("interp", j, 0) : j \in {j \in 1..n : Wd.lay[j].type = 3}}
+  IN CASE m = "sessW" -> {}
+       [] m = "sessA" -> (IF Cardinality(live) < 2 THEN Starts({<<4100, 4>>, <<4130, 4>>, <<4150, 2>>}, {1, 4}) ELSE {})
+                         \cup OnGens(Wd, s, live, GenOps) \cup {Letter("segdata", 1, 0), Letter("str", 6, 0)}
+       [] m = "sessD" -> {Letter("secdata", k, 0) : k \in {1, 4, 5, 6}} \cup {Letter("segdata", j, 0) : j \in {1, 4}} \cup {Letter("str", o, 0) : o \in {6, 141}}
+       [] m = "sessS" -> {Letter("str", o, 0) : o \in SessStrOffs}
+       [] m = "sessR" ->
+            LET starts == IF Cardinality(live) < 3 THEN Starts(SessQ, {0, 1, 4}) ELSE {}
+                atomics == {Letter("secdata", k, 0) : k \in 1..8} \cup {Letter("segdata", j, 0) : j \in 1..n} \cup {Letter("seg", j, 0) : j \in 1..n}
+                           \cup {Letter("nseg", 0, 0)} \cup {Letter("str", so, 0) : so \in SessStrOffs} \cup interp
+                           \cup {Letter("inseg", j, k) : j \in 1..n, k \in {1, 2, 7}}
+                c == Lcg(ob.seed, 2 * Len(s.log)) % 10
+                r == Lcg(ob.seed, 2 * Len(s.log) + 1)
+                \* on an open generator: the next answer three times out of five, the rest of them, or abandon it
+                genop == Letter(<<"adv", "adv", "adv", "drain", "drop">>[(r % 5) + 1], SetToSortSeq(live, LAMBDA x, y : x < y)[((r \div 5) % Cardinality(live)) + 1], 0)
+            IN IF (c <= 2 /\ starts # {}) \/ (c <= 6 /\ live = {}) THEN {PickFrom(starts, r)}
+               ELSE IF c <= 6 THEN {genop} ELSE {PickFrom(atomics, r)}
+
 (* --------------------------------- the machine -------------------------- *)
 Init ==
   /\ mode \in Modes
   /\ done = (mode # "inseg")
+  /\ sess = NoSess
   /\ CASE mode = "inseg" -> obj \in InsegSeeds
+       [] mode = "sessR" -> \E k \in 1..NSched : obj = [w |-> SessWorldSeq[(k % 8) + 1], held |-> (k \div 8) % 2 = 1, seed |-> k]
+       [] mode \in SessModes -> \E w \in SessWorlds(mode), h \in SessHeld(mode) : obj = [w |-> w, held |-> h]
        [] mode = "addr" -> \E cl \in ClsLe, li \in 1..Len(Layouts) : obj = [cl |-> cl, li |-> li]
        [] mode = "strings" -> \E cl \in ClsLe, pad \in {0, 1, 37, 63} : obj = [cl |-> cl, pad |-> pad]
        [] mode = "longstr" -> \E cl \in ClsLe : obj = [cl |-> cl]
@@ -202,13 +359,16 @@ Init ==
                               /\ (n = 70000 => k = "nobits")
                               /\ obj = [cl |-> cl, kind |-> k, n |-> n, blk |-> blk]
 \* the grid writer picks the section flags and size in a second step (so that TLC workers share the images)
-PickFlags == /\ mode = "inseg" /\ ~done /\ done' = TRUE /\ UNCHANGED mode
+PickFlags == /\ mode = "inseg" /\ ~done /\ done' = TRUE /\ UNCHANGED <<mode, sess>>
              /\ \E tl \in BOOLEAN, al \in BOOLEAN, nb \in BOOLEAN, sz \in 0..3 : obj' = [obj EXCEPT !.tl = tl, !.al = al, !.nb = nb, !.sz = sz]
-Next == PickFlags
+\* one client call on the long-lived file
+ClientCall == /\ mode \in SessModes /\ Len(sess.log) < SessDepth(mode)
+              /\ \E l \in SessLetters(mode, SessTab[obj.w], sess, obj) : sess' = SessStep(SessTab[obj.w], sess, l)
+              /\ UNCHANGED <<mode, obj, done>>
+Next == PickFlags \/ ClientCall
 Spec == Init /\ [][Next]_vars
 
 (* ---------------------------------- emission ---------------------------- *)
-Bit(b) == IF b THEN 1 ELSE 0
 Case ==
   CASE mode = "inseg" ->
          LET x == InsegImage(obj) IN
@@ -256,7 +416,15 @@ Case ==
              \* where the stream a different compressor would write may be substituted: [file offset, length of the slot,
              \* offset/width of sh_size, of p_filesz]  (harness-side recompression at other zlib levels)
              zslot |-> [off |-> off2 + SizeOf(ChdrF(obj.cl[1]), obj.cl[1]), len |-> dlen - SizeOf(ChdrF(obj.cl[1]), obj.cl[1])]]
-Emit == done => CSVWrite("%1$s", <<ToJson(Case)>>, IOEnv.OUT)
+\* sessions: the image of every world (mode "sessW"), every finished session with the answer of every call
+WorldLine == LET Wd == SessTab[obj.w] IN
+  [mode |-> "world", w |-> obj.w, chunks |-> Chunks(Wd.im), segs |-> [j \in 1..NSegW(Wd) |-> SegHdr(Wd, j)],
+   secidx |-> [k \in 1..Len(Wd.im.secs) |-> UserIndex(Wd.im, k)], strsec |-> 8]
+SessLine == [mode |-> "sess", disc |-> mode, w |-> obj.w, held |-> Bit(obj.held), calls |-> sess.log]
+Emit == IF mode \in SessModes
+        THEN IF mode = "sessW" THEN CSVWrite("%1$s", <<ToJson(WorldLine)>>, IOEnv.OUT)
+             ELSE Len(sess.log) = SessDepth(mode) => CSVWrite("%1$s", <<ToJson(SessLine)>>, IOEnv.OUT)
+        ELSE done => CSVWrite("%1$s", <<ToJson(Case)>>, IOEnv.OUT)
 
 (* --------------------------------- properties --------------------------- *)
 MacroEqGeometric == (mode = "inseg" /\ done) => \A k \in 1..NSecGeom : \A j \in 1..4 :
@@ -269,4 +437,30 @@ DeflateRoundTrip == mode \in {"data", "data2"} /\ obj.kind = "zlib" => LET p == 
 OffsetsInsideSegments == mode = "addr" => \A q \in AddrQueries : LET r == AddressOffsets(Layouts[obj.li], q[1], q[2]) IN
                                              \A i \in 1..Len(r) : \E j \in 1..Len(Layouts[obj.li]) :
                                                 LET g == Layouts[obj.li][j] IN g.load /\ r[i] >= g.off /\ r[i] + q[2] <= g.off + g.filesz
+\* --- sessions
+\* the worlds are what the sessions need: at least three PT_LOADs, two of them overlapping in addresses with different file
+\* mappings, distinguishable program headers, queries with no / one / several answers and an answer that is not the first PT_LOAD's
+ASSUME \A w \in SessWorldKeys : LET Wd == SessTab[w]   n == NSegW(Wd)   loads == {j \in 1..n : Wd.lay[j].load} IN
+         /\ Cardinality(loads) >= 3
+         /\ \E i \in loads, j \in loads : i < j /\ Wd.lay[i].vaddr < Wd.lay[j].vaddr + Wd.lay[j].filesz /\ Wd.lay[j].vaddr < Wd.lay[i].vaddr + Wd.lay[i].filesz
+                                        /\ Wd.lay[i].off - Wd.lay[i].vaddr # Wd.lay[j].off - Wd.lay[j].vaddr
+         /\ \A i \in 1..n, j \in 1..n : i # j => Tail(SegHdr(Wd, i)) # Tail(SegHdr(Wd, j))      \* apart from the type
+         /\ {1, 2} \subseteq {Len(AddressOffsets(Wd.lay, q[1], q[2])) : q \in SessQ}
+         /\ \E q \in SessQ : LET r == AddressOffsets(Wd.lay, q[1], q[2]) IN r # <<>> /\ r[1] # q[1] - Wd.lay[Min(loads)].vaddr + Wd.lay[Min(loads)].off
+         /\ \A j \in 1..n : Len(Wd.segdata[j]) = Wd.lay[j].filesz
+ASSUME Inflate(Stored(Payload2(33), 65535), 3) = Payload2(33) /\ \A o \in SessStrOffs : CStrAt(SessStrTab, o).ok
+\* what the cursors have yielded so far (the answers logged for a generator, in order)
+RECURSIVE YieldedBy(_, _, _)
+YieldedBy(log, g, i) == IF i > Len(log) THEN <<>>
+                        ELSE (IF log[i].op \in {"adv", "drain"} /\ log[i].a = g THEN log[i].ans ELSE <<>>) \o YieldedBy(log, g, i + 1)
+\* a generator's answers are a prefix of the declarative answer - exactly the part given by the table entries the cursor has
+\* passed - whatever other generators and queries were interleaved; an exhausted generator has given all of it
+SessGenPrefix == mode \in SessModes => LET Wd == SessTab[obj.w] IN \A g \in 1..Len(sess.gens) :
+                   LET G == sess.gens[g]   d == GenDecl(Wd, G.kind, G.a, G.b)   ys == YieldedBy(sess.log, g, 1) IN
+                   /\ Len(ys) <= Len(d) /\ ys = SubSeq(d, 1, Len(ys))
+                   /\ (G.cur > NSegW(Wd) => ys = d)
+                   /\ (G.cur <= NSegW(Wd) /\ Len(ys) < Len(d) => \E j \in (G.cur + 1)..NSegW(Wd) : GenAt(Wd, G, j) = <<d[Len(ys) + 1]>>)
+\* the answer to an atomic query is the declarative view: it depends on the letter alone, not on its place in the log
+SessHistoryFree == mode \in SessModes => LET Wd == SessTab[obj.w] IN \A i \in 1..Len(sess.log) :
+                     LET c == sess.log[i] IN c.op \notin GenKinds \cup GenOps => c.ans = Answer(Wd, Letter(c.op, c.a, c.b))
 =============================================================================
